@@ -16,9 +16,14 @@ Open Scope Z_scope.
 (* ---------------------------------------------------------------------------------------------- *)
 (* The property, for every ingestion history of a column buffer: what SELECT decodes from the
    finished column is exactly what was supplied.  Domain ([ops_ok]): pushes as the ingestion path
-   issues them (no caller-supplied null map), integers in i64, strings shorter than 2^24 bytes, and
-   no NULL after the buffer became Mixed (F4).  [int_guard] excludes, for a buffer that ends as an
-   integer buffer, the overflow classes F10 / F19 (see [int_data_ok]). *)
+   issues them (no caller-supplied null map), integers in i64, strings shorter than 2^24 bytes.
+   [int_guard]: if the buffer ends as an integer buffer that is delta-coded, its maximum is at most
+   i64::MAX - 2^32 (the i64 subtraction `max - offset` of create_col's range metadata; reaching the
+   excluded corner takes a run of more than 2^31 values).
+   History: stated for /repo 4a8ac11.  Before the fixes f5be0e2 (F4), 481c464 (F10), 3e7ef89 (F19) the
+   theorem carried three more guards (no NULL after the buffer became Mixed; every step of a
+   delta-eligible run fits an i64; not min = i64::MIN with max = 0) and the unguarded statement was
+   refuted by C01_F4_witness / C01_F10_witness / C01_F19_witness, now the positive examples below. *)
 Theorem C01_roundtrip :
   forall (f2s : Z -> str), (forall f, zlen (f2s f) < 16777216) ->
   forall ops : list push_op,
@@ -27,22 +32,20 @@ Theorem C01_roundtrip :
     stored f2s ops = Val (expected f2s ops).
 Proof. exact stored_expected. Qed.
 
-(* Without the guards the statement is false of the faithful model: *)
-Theorem C01_full_statement_refuted : ~ C01_full_statement.
-Proof. exact Proofs.Ingest.C01_full_statement_refuted. Qed.
-
-Theorem C01_F4_witness :
-  stored no_display [PStrs [[97]] None; PInts [1] None; PNulls 1] = Val [CStr [97]; CStr [49]] /\
+(* the former counterexamples round-trip on the repaired code *)
+Theorem C01_former_F4_witness :
+  stored no_display [PStrs [[97]] None; PInts [1] None; PNulls 1] =
+  Val (expected no_display [PStrs [[97]] None; PInts [1] None; PNulls 1]) /\
   expected no_display [PStrs [[97]] None; PInts [1] None; PNulls 1] = [CStr [97]; CStr [49]; CNull].
-Proof. exact F4_witness. Qed.
+Proof. exact former_F4_witness. Qed.
 
-Theorem C01_F10_witness :
-  stored no_display [PInts [i64_min + 1; i64_max - 1] None] = Panic SubOverflow.
-Proof. exact F10_witness. Qed.
+Theorem C01_former_F10_witness :
+  stored no_display [PInts [i64_min + 1; i64_max - 1] None] = Val [CInt (i64_min + 1); CInt (i64_max - 1)].
+Proof. exact former_F10_witness. Qed.
 
-Theorem C01_F19_witness :
-  stored no_display [PInts [i64_min] None; PNulls 1] = Panic SubOverflow.
-Proof. exact F19_witness. Qed.
+Theorem C01_former_F19_witness :
+  stored no_display [PInts [i64_min] None; PNulls 1] = Val [CInt i64_min; CNull].
+Proof. exact former_F19_witness. Qed.
 
 (* The table-level front end (InputColumn::from_column_data + Buffer::push_typed_cols +
    extend_to_largest, one column's view) only issues ingestion pushes: whenever it does not panic
@@ -82,38 +85,42 @@ Theorem C01_int_roundtrip :
     decode_column col = Val (int_sval xs null).
 Proof. exact new_boxed_decode. Qed.
 
-(* The plain path returns a column for all statistics that bound the values, except min = i64::MIN
-   with max = 0 (F19), where it panics: *)
+(* The plain path returns a column for all statistics that bound the values (before /repo 3e7ef89:
+   except min = i64::MIN with max = 0, finding F19): *)
 Theorem C01_int_plain_total :
   forall (xs : list Z) (mn mx : Z) (null : option (list Z)),
     i64_min <= mn -> mx <= i64_max -> mn <= mx -> bounded mn mx xs ->
-    ~ (mn = i64_min /\ mx = 0) ->
     exists col, new_boxed xs mn mx false null = Val col.
 Proof. exact new_boxed_plain_total. Qed.
 
-Theorem C01_int_plain_refuted :
-  exists xs mn mx, i64_min <= mn /\ mx <= i64_max /\ mn <= mx /\ bounded mn mx xs /\
-                   new_boxed xs mn mx false None = Panic SubOverflow.
-Proof. exact new_boxed_plain_refuted. Qed.
+Theorem C01_int_former_F19 :
+  new_boxed [i64_min; 0] i64_min 0 false None =
+  Val (mk_column 2 (Some (i64_min, 0)) [] [SInts EI64 [i64_min; 0]]).
+Proof. exact new_boxed_former_F19. Qed.
 
-(* The delta path returns a column when every step fits an i64 (else F10), no step is exactly
-   -2^63, the first value is not i64::MIN, and the maximum is at least 2^32 below i64::MAX: *)
+(* The delta path returns a column when every step fits an i64 and the maximum is at least 2^32 below
+   i64::MAX (before 3e7ef89 also: first value <> i64::MIN, no step of exactly -2^63): *)
 Theorem C01_int_delta_total :
   forall (v0 : Z) (r : list Z) (mn mx : Z) (null : option (list Z)),
     i64s (v0 :: r) -> delta_safe v0 r ->
     bounded mn mx (v0 :: r) -> In mn (v0 :: r) -> In mx (v0 :: r) ->
     mx <= 9223372032559808511 ->
-    v0 <> i64_min -> (forall d, In d (diffs v0 r) -> d <> i64_min) ->
     exists col, new_boxed (v0 :: r) mn mx true null = Val col.
 Proof. exact new_boxed_delta_total. Qed.
 
-(* IntColBuffer's own statistics select delta coding for a column whose step overflows (F10): *)
-Theorem C01_int_delta_refuted :
-  exists data, i64s data /\
-    let st := istats_push_all istats_init data in
-    st_allow st = true /\ delta_decision st (zlen data) = true /\
-    int_finalize data st None = Panic SubOverflow.
-Proof. exact int_finalize_delta_refuted. Qed.
+(* IntColBuffer's statistics keep delta coding allowed only if every step fits an i64 (this is what
+   /repo 481c464 repaired; before it the statement was refuted by [i64::MIN+1, i64::MAX-1], F10): *)
+Theorem C01_int_stats_delta_safe :
+  forall (v0 : Z) (r : list Z),
+    st_allow (istats_push_all istats_init (v0 :: r)) = true -> delta_safe v0 r.
+Proof. exact istats_allow_safe. Qed.
+
+Theorem C01_int_former_F10 :
+  let data := [i64_min + 1; i64_max - 1] in
+  let st := istats_push_all istats_init data in
+  st_allow st = false /\
+  int_finalize data st None = Val (mk_column 2 (Some (i64_min + 1, i64_max - 1)) [] [SInts EI64 data]).
+Proof. exact int_finalize_former_F10. Qed.
 
 (* ---------------------------------------------------------------------------------------------- *)
 (* Strings: all byte strings shorter than 2^24, all three layouts (packed, hex-packed, dictionary with
@@ -179,16 +186,14 @@ Example C01_example_offset_nullable :
     Val (repeat CNull 9 ++ [CInt (-200); CInt (-100); CInt (-255); CNull; CInt (-1)]).
 Proof.
   cbn zeta. split; [|split; [|split]].
-  - cbn. repeat split; try lia; try discriminate; repeat constructor; unfold i64_min, i64_max; try lia;
-      intros [H _]; discriminate.
-  - vm_compute. intros [H _]. discriminate.
+  - cbn. repeat split; try lia; try discriminate; repeat constructor; unfold i64_min, i64_max; lia.
+  - vm_compute. discriminate.
   - eexists. split; vm_compute; reflexivity.
   - rewrite C01_roundtrip.
     + vm_compute. reflexivity.
     + intros f. cbn. lia.
-    + cbn. repeat split; try lia; try discriminate; repeat constructor; unfold i64_min, i64_max; try lia;
-        intros [H _]; discriminate.
-    + vm_compute. intros [H _]. discriminate.
+    + cbn. repeat split; try lia; try discriminate; repeat constructor; unfold i64_min, i64_max; lia.
+    + vm_compute. discriminate.
 Qed.
 
 (* a delta-coded run *)
